@@ -19,6 +19,8 @@ pub trait SupplyBound {
     fn service_time(&self, demand: Service) -> Duration {
         let mut t = Duration::from(demand);
         loop {
+            #[cfg(feature = "verif")]
+            crate::verif_hooks::tick("supply::service_time");
             let supply = self.provided_service(t);
             if supply >= demand {
                 return t;
